@@ -318,7 +318,7 @@ func NoBIOSACMErrors(txtAPI hwapi.LowLevelHardwareInterfaces, p *PreSet) (bool, 
 func IA32DebugInterfaceLockedDisabled(txtAPI hwapi.LowLevelHardwareInterfaces, p *PreSet) (bool, error, error) {
 	// Check for IA32_DEBUG_INTERFACE support
 	_, _, ecx, _ := txtAPI.CPUSignatureFull()
-	if ecx&(1<<11) != 0 {
+	if ecx&(1<<11) == 0 {
 		// Nothing to check. Return success.
 		return true, nil, nil
 	}
